@@ -132,41 +132,38 @@ theorem analyzeAll_of_rel (itype : IType) (l : List IntegralIn) (as : List Analy
   | nil => rfl
   | cons ha _ ih => simp [analyzeAll, ha, ih]
 
-/-- `selectSeq` along an invariant of the shared variable `cell_type` -/
-theorem selectSeq_rel (o : Options) (g : GroupIn) (Inv : Cell → Prop)
-    (hstep : ∀ s it a s' sels, Inv s → selectStep o g s it a = .ok (s', sels) → Inv s')
-    (st : Cell) (hst : Inv st) (l : List (IntegralIn × Analysed)) (outs : List IntegralOut)
-    (h : selectSeq o g st l = .ok outs) :
+/-- `selectSeq` is pointwise: every integral is selected on its own -/
+theorem selectSeq_rel (o : Options) (g : GroupIn) (l : List (IntegralIn × Analysed)) (outs : List IntegralOut)
+    (h : selectSeq o g l = .ok outs) :
     Rel2 (fun (p : IntegralIn × Analysed) out => out.tag = p.1.tag ∧
-      ∃ s s', Inv s ∧ selectStep o g s p.1 p.2 = .ok (s', out.sels)) l outs := by
-  induction l generalizing st outs with
+      selectStep o g p.1 p.2 = .ok out.sels) l outs := by
+  induction l generalizing outs with
   | nil => simp [selectSeq] at h; subst h; exact .nil
   | cons p rest ih =>
     obtain ⟨it, a⟩ := p
     simp only [selectSeq] at h
     split at h
     · cases h
-    · rename_i st' sels hs
+    · rename_i sels hs
       split at h
       · cases h
       · rename_i outs' ho
         cases h
-        exact .cons ⟨rfl, st, st', hst, hs⟩ (ih st' (hstep _ _ _ _ _ hst hs) outs' ho)
+        exact .cons ⟨rfl, hs⟩ (ih outs' ho)
 
-/-- the first integral of a group sees the integration cell in `cell_type` -/
-theorem selectSeq_head (o : Options) (g : GroupIn) (st : Cell) (it : IntegralIn) (a : Analysed)
-    (rest : List (IntegralIn × Analysed)) (outs : List IntegralOut)
-    (h : selectSeq o g st ((it, a) :: rest) = .ok outs) :
-    ∃ s' sels outs', outs = ⟨it.tag, sels⟩ :: outs' ∧ selectStep o g st it a = .ok (s', sels) := by
-  simp only [selectSeq] at h
-  split at h
-  · cases h
-  · rename_i st' sels hs
-    split at h
-    · cases h
-    · rename_i outs' _
-      cases h
-      exact ⟨st', sels, outs', rfl, hs⟩
+theorem selectSeq_of_rel (o : Options) (g : GroupIn) (l : List (IntegralIn × Analysed)) (outs : List IntegralOut)
+    (h : Rel2 (fun (p : IntegralIn × Analysed) out => out.tag = p.1.tag ∧
+      selectStep o g p.1 p.2 = .ok out.sels) l outs) : selectSeq o g l = .ok outs := by
+  induction h with
+  | nil => rfl
+  | @cons p out l' m' hab _ ih =>
+    obtain ⟨it, a⟩ := p
+    obtain ⟨ht, hs⟩ := hab
+    cases out with
+    | mk tag sels =>
+      simp only at ht hs
+      subst ht
+      simp [selectSeq, hs, ih]
 
 /-- zipping a list with a pointwise-related list -/
 theorem rel2_zip {α β γ : Type} {R : α → β → Prop} {S : α × β → γ → Prop} {T : α → γ → Prop}
@@ -179,33 +176,42 @@ theorem rel2_zip {α β γ : Type} {R : α → β → Prop} {S : α × β → γ
     cases h2 with
     | cons hs hrest => exact .cons (hT _ _ _ hab hs) (ih hrest)
 
-/-- **shape of `selectGroup`**: every integral is analysed on its own and selected at SOME value of the
-shared variable that satisfies the invariant -/
-theorem selectGroup_rel (o : Options) (g : GroupIn) (Inv : Cell → Prop)
-    (hstep : ∀ s it a s' sels, Inv s → selectStep o g s it a = .ok (s', sels) → Inv s')
-    (h0 : Inv g.cell) (outs : List IntegralOut) (h : selectGroup o g = .ok outs) :
-    Rel2 (fun it out => out.tag = it.tag ∧ ∃ a s s', Inv s ∧ analyze g.itype it = .ok a ∧
-      selectStep o g s it a = .ok (s', out.sels)) g.integrals outs := by
-  unfold selectGroup at h
-  split at h
-  · cases h
-  · rename_i as has
-    have h1 := analyzeAll_rel _ _ _ has
-    have h2 := selectSeq_rel o g Inv hstep g.cell h0 _ _ h
-    exact rel2_zip (fun it a out hr hs => ⟨hs.1, a, hs.2.choose, hs.2.choose_spec.choose,
-      hs.2.choose_spec.choose_spec.1, hr, hs.2.choose_spec.choose_spec.2⟩) h1 h2
+theorem rel2_zip_mk {α β γ : Type} {R : α → β → Prop} {S : α × β → γ → Prop}
+    {l : List α} {n : List γ} (h : Rel2 (fun a c => ∃ b, R a b ∧ S (a, b) c) l n) :
+    ∃ m, Rel2 R l m ∧ Rel2 S (l.zip m) n := by
+  induction h with
+  | nil => exact ⟨[], .nil, .nil⟩
+  | cons hab _ ih =>
+    obtain ⟨b, hr, hs⟩ := hab
+    obtain ⟨m, h1, h2⟩ := ih
+    exact ⟨b :: m, .cons hr h1, by simpa using Rel2.cons hs h2⟩
+
+/-- **shape of `selectGroup`**: a group is accepted exactly when every integral is analysed and selected
+on its own, and the outputs are those of the single integrals -/
+theorem selectGroup_iff (o : Options) (g : GroupIn) (outs : List IntegralOut) :
+    selectGroup o g = .ok outs ↔
+    Rel2 (fun it out => ∃ a, analyze g.itype it = .ok a ∧ out.tag = it.tag ∧
+      selectStep o g it a = .ok out.sels) g.integrals outs := by
+  constructor
+  · intro h
+    unfold selectGroup at h
+    split at h
+    · cases h
+    · rename_i as has
+      have h1 := analyzeAll_rel _ _ _ has
+      have h2 := selectSeq_rel o g _ _ h
+      exact rel2_zip (fun it a out hr hs => ⟨a, hr, hs.1, hs.2⟩) h1 h2
+  · intro h
+    obtain ⟨as, h1, h2⟩ := rel2_zip_mk (R := fun it a => analyze g.itype it = .ok a)
+      (S := fun (p : IntegralIn × Analysed) (out : IntegralOut) => out.tag = p.1.tag ∧ selectStep o g p.1 p.2 = .ok out.sels) h
+    simp [selectGroup, analyzeAll_of_rel _ _ _ h1, selectSeq_of_rel o g _ _ h2]
+
+theorem selectGroup_rel (o : Options) (g : GroupIn) (outs : List IntegralOut) (h : selectGroup o g = .ok outs) :
+    Rel2 (fun it out => out.tag = it.tag ∧ ∃ a, analyze g.itype it = .ok a ∧
+      selectStep o g it a = .ok out.sels) g.integrals outs :=
+  ((selectGroup_iff o g outs).mp h).imp (fun _ _ ⟨a, h1, h2, h3⟩ => ⟨h2, a, h1, h3⟩)
 
 /-! ### one step of the selection -/
-
-theorem lastCell_mem (st : Cell) (rs : List Sel) (h : rs ≠ []) : ∃ x ∈ rs, lastCell st rs = x.cell := by
-  induction rs with
-  | nil => exact absurd rfl h
-  | cons a rest ih =>
-    cases rest with
-    | nil => exact ⟨a, by simp, rfl⟩
-    | cons b rest' =>
-      obtain ⟨x, hx, hl⟩ := ih (by simp)
-      exact ⟨x, by simp [hx], by simpa [lastCell] using hl⟩
 
 theorem createEach_cells (d : Int) (s : String) (ps : List Polyset) (cs : List Cell) (rs : List Sel)
     (h : createEach d s ps cs = .ok rs) :
